@@ -348,3 +348,56 @@ def some_iff_nonempty(ctx, rr, body, label):
                     else:
                         rr.fail("%s:some-iff-empty" % label, "`%s` answers Some(list) on a path where the list was found EMPTY" % shortfn(body.id), where=body.line_of(bb))
     return judged
+
+
+RECORD_CTORS = {
+    "tower": ("teos::gatekeeper::UserInfo::new", "teos::responder::TransactionTracker::new", "teos::responder::PenaltySummary::new", "teos::watcher::Breach::new",
+              "teos_common::appointment::Appointment::new", "teos_common::receipts::AppointmentReceipt::new", "teos_common::receipts::AppointmentReceipt::with_signature",
+              "teos_common::receipts::RegistrationReceipt::new", "teos_common::receipts::RegistrationReceipt::with_signature"),
+    "client": ("watchtower_plugin::TowerSummary::new", "watchtower_plugin::TowerSummary::with_appointments", "watchtower_plugin::TowerInfo::new", "watchtower_plugin::MisbehaviorProof::new",
+               "teos_common::appointment::Appointment::new", "teos_common::receipts::AppointmentReceipt::new", "teos_common::receipts::AppointmentReceipt::with_signature",
+               "teos_common::receipts::RegistrationReceipt::new", "teos_common::receipts::RegistrationReceipt::with_signature"),
+}
+
+
+def ctors_keep_args(ctx, rr, side):
+    """the plain constructors of the records that get stored, signed, loaded and reported keep what they are given: a field named like
+    a parameter holds that parameter (as it is, wrapped in Some, or through a one-argument conversion such as NetAddr::new) — a
+    constructor that normalises, filters or combines its arguments makes what is reloaded / signed differ from what was stored / sent"""
+    P = ctx.prog
+    n = 0
+    for fn in RECORD_CTORS[side]:
+        b = P.bodies.get(fn)
+        if b is None:
+            rr.anchor_missing(fn)
+            continue
+        ret = og.strip(ctx.og.local(b, 0))
+        if not (isinstance(ret, tuple) and ret and ret[0] == "agg"):
+            rr.fail("ctor:shape:%s" % shortfn(fn), "`%s` does not return a plain record" % shortfn(fn), where=b.span)
+            continue
+        names = {b.locals[i].get("name"): i for i in range(1, b.argc + 1)}
+        bad = []
+        for fname, val in ret[3]:
+            if fname not in names:
+                continue
+            want = ("param", b.id, names[fname])
+            v = og.strip(val)
+            ok = v == want
+            if not ok and isinstance(v, tuple) and v and v[0] == "agg" and any(og.strip(x_[1]) == want for x_ in v[3]):
+                ok = True   # Some(param), or a wrapper record that holds the parameter itself (NetAddr { net_addr, addr_type })
+            if not ok and isinstance(v, tuple) and v and v[0] == "ret" and isinstance(v[2], tuple):
+                inner = og.strip(v[2])
+                if isinstance(inner, tuple) and inner and inner[0] == "agg" and any(og.strip(x_[1]) == want for x_ in inner[3]):
+                    ok = True
+            if not ok and isinstance(v, tuple) and v and v[0] in ("call", "ret"):
+                args = v[2] if v[0] == "call" else (v[4] if len(v) > 4 and isinstance(v[4], tuple) else ())
+                if len(args) == 1 and og.strip(args[0]) == want and v[1].split("::")[-1] in ("new", "from", "into", "to_owned", "clone", "to_string"):
+                    ok = True
+            n += 1
+            if not ok:
+                bad.append("%s = %s" % (fname, og.show(val)[:60]))
+        if bad:
+            rr.fail("ctor-alters-argument:%s:%s" % (shortfn(fn), bad[0].split(" = ")[0]), "`%s` does not keep its arguments as given (%s)" % (shortfn(fn), "; ".join(bad)), where=b.span)
+        else:
+            rr.ok("%s keeps its arguments" % shortfn(fn))
+    return n
